@@ -123,10 +123,22 @@ def main():
         n = nhang = 0
         budget = float(getattr(mod, "CASE_CPU_BUDGET_S", 20))
         signal.signal(signal.SIGVTALRM, _on_alarm)
-        M.rearm = lambda: signal.setitimer(signal.ITIMER_VIRTUAL, budget)
+        seg = {"t": time.process_time(), "max": 0.0, "case": None}
+
+        def _arm():
+            # longest stretch of CPU time between two (re)arms: what the watchdog actually compares with its budget;
+            # reported so that a bulk case drifting towards the budget is seen before it becomes a false alarm
+            now = time.process_time()
+            if now - seg["t"] > seg["max"]:
+                seg["max"], seg["case"] = now - seg["t"], M.current
+            seg["t"] = now
+            signal.setitimer(signal.ITIMER_VIRTUAL, budget)
+
+        M.rearm = _arm
         for case in cases:
             M.current = case
             n += 1
+            seg["t"] = time.process_time()
             # per-case watchdog on the process's own CPU time (immune to machine load): a case normally takes
             # milliseconds, so burning `budget` CPU seconds inside one call is a hang of the code under test
             signal.setitimer(signal.ITIMER_VIRTUAL, budget)
@@ -160,7 +172,11 @@ def main():
                         M.notes.append(f"harness error on {case!r}: {traceback.format_exc(limit=6)}")
             finally:
                 signal.setitimer(signal.ITIMER_VIRTUAL, 0)
+                if time.process_time() - seg["t"] > seg["max"]:
+                    seg["max"], seg["case"] = time.process_time() - seg["t"], case
         M.rearm = None
+        if seg["max"] > budget * 0.4:
+            M.notes.append(f"longest CPU stretch without a progress mark: {seg['max']:.1f} s of {budget:.0f} s in case {str(seg['case'])[:120]}")
         M.current = None
         if hasattr(mod, "finish"):
             mod.finish(M)
